@@ -87,6 +87,7 @@ def withhold_unrecognised(check: Check, pid: str) -> None:
             from .core.alpha import edit_distance, pinned_table, statement_digests
             enclosing = [(k, n) for k, n in cands[:n_where]]
             far = []
+            newlocals: dict = {}
             for key, node in enclosing:
                 e = pinned_table().get(key)
                 if e is None and "." in key.split(":")[-1]:
@@ -101,8 +102,16 @@ def withhold_unrecognised(check: Check, pid: str) -> None:
                         except Exception:
                             e = None
                 d = edit_distance(e["stmts"], statement_digests(node)) if e and "stmts" in e else None
-                if d is None or d > LOCAL_EDIT:
+                if d is None or d > (0 if os.environ.get("QV_GATE") == "strict" else LOCAL_EDIT):
                     far.append((key, d))
+                elif d and e and "locals" in e and os.environ.get("QV_GATE", "local") != "nolocals":
+                    # a local edit that INTRODUCES a local name the recorded function does not have (a new temporary, a cached value, an unpacked helper result) has
+                    # re-expressed part of the computation: an idiom that no longer matches is then "written differently", not evidence of a defect
+                    from .core.alpha import locals_of
+                    fresh = sorted(set(locals_of(node)) - set(e["locals"]))
+                    if fresh:
+                        far.append((key, d))
+                        newlocals[key] = fresh
             if not far and enclosing and all((pinned_table().get(k) or {}).get("stmts") is not None and edit_distance(pinned_table()[k]["stmts"], statement_digests(n)) == 0
                                              for k, n in enclosing if k in pinned_table()) and any(k in pinned_table() for k, _ in enclosing):
                 # the function the verdict points at is UNTOUCHED: the mismatch stems from another function this property analyses.  If that other function was
@@ -124,8 +133,9 @@ def withhold_unrecognised(check: Check, pid: str) -> None:
                 k, d = far[0]
                 ob.verdict = "withheld"
                 check.error(f"{ob.rule} not recognised: {k.split(':')[-1]} "
-                            + (f"differs from the recorded function in {d} statements" if d is not None else "is not a recorded function")
-                            + " (restructured, not a local edit)"
+                            + ((f"introduces the local name(s) {newlocals[k]} (part of the computation is re-expressed through them)" if k in newlocals else
+                                f"differs from the recorded function in {d} statements") if d is not None else "is not a recorded function")
+                            + ("" if k in newlocals else " (restructured, not a local edit)")
                             + (f"; the rule matches expression text such as {texts[0][:50]!r}" if texts else "")
                             + f" — a different way of writing the code is not evidence of different behaviour; withheld (not a verdict): {ob.construct}")
                 continue
